@@ -1,5 +1,115 @@
-/- Model for C15 (core Lean only, no Mathlib). -/
+/-
+Model for C15 — decision core of the GDAL (rasterio) COG writer `odc/geo/cog/_rio.py`
+(core Lean only).  Only the decisions odc-geo itself takes are modelled:
+
+  _rio.py  check_write_path (32-54), _default_cog_opts (57-69), _norm_compression_opts (72-83),
+           _write_cog: band-layout normalisation (109-124), default overview levels (126-130),
+           block-size warning (139-140); write_cog_layers uses the same _default_cog_opts
+  _shared.py adjust_blocksize (146-149)  — shared with C05, imported from its model
+
+Everything GDAL / rasterio does (encoding, overview resampling, the two-pass copy, decoding) is
+NOT modelled; it is exercised by the round trip of the harness and trusted.
+-/
 import OdcGeo.Model.IO
+import OdcGeo.Model.C05
 namespace OdcGeo.C15
+open OdcGeo.C05 (adjustBlocksize alignUp YX)
+
+/-! ### band layout (`_write_cog`, 109-124) -/
+
+inductive LErr where
+  | valueError   -- "GeoBox shape does not match image shape" / "Need 2d or 3d ndarray"
+  | assertion    -- `assert geobox.shape == (h, w)`
+  deriving DecidableEq, Repr
+
+/-- normalised layout: band count, height, width, and whether `pix.transpose([2, 0, 1])` ran -/
+structure Layout where
+  nbands : Nat
+  h : Nat
+  w : Nat
+  transposed : Bool
+  deriving DecidableEq, Repr
+
+/-- 2-D: one band; 3-D: band-last if the first two axes match the GeoBox (checked first — an
+`n×n×n` array over an `n×n` GeoBox is therefore always read as band-last), else band-first if
+the last two match, else `ValueError`; other ranks `ValueError`. -/
+def normLayout (shape : List Nat) (g : YX) : Except LErr Layout :=
+  match shape with
+  | [h, w] => if g = ⟨h, w⟩ then .ok ⟨1, h, w, false⟩ else .error .assertion
+  | [a, b, c] =>
+    if g = ⟨a, b⟩ then .ok ⟨c, a, b, true⟩
+    else if g ≠ ⟨b, c⟩ then .error .valueError
+    else .ok ⟨a, b, c, false⟩
+  | _ => .error .valueError
+
+/-- where output element `[k, y, x]` (band-first) comes from in the input array -/
+def srcIndex (l : Layout) (k y x : Nat) : Nat × Nat × Nat :=
+  if l.transposed then (y, x, k) else (k, y, x)
+
+/-- is the 3-D shape readable both ways? (reported, not judged) -/
+def ambiguous (shape : List Nat) (g : YX) : Bool :=
+  match shape with
+  | [a, b, c] => g = ⟨a, b⟩ && g = ⟨b, c⟩
+  | _ => false
+
+/-! ### default overview levels (126-130) -/
+
+/-- `[] if min(w, h) < 512 else [2**i for i in range(1, 6)]` -/
+def defaultLevels (w h : Nat) : List Nat :=
+  if min w h < 512 then [] else (List.range 5).map fun i => 2 ^ (i + 1)
+
+/-- the levels a call ends up with -/
+def levelsFor (requested : Option (List Nat)) (w h : Nat) : List Nat :=
+  match requested with
+  | some l => l
+  | none => defaultLevels w h
+
+/-! ### creation options (`_default_cog_opts`, 57-69; `blocksize is None → 512`) -/
+
+structure CogOpts where
+  blockxsize : Nat
+  blockysize : Nat
+  predictor : Nat
+  warns : Bool     -- "Block size must be a multiple of 16, will be adjusted"
+  deriving DecidableEq, Repr
+
+def cogOpts (blocksize : Option Nat) (w h : Nat) (isFloat : Bool) : CogOpts :=
+  let b := blocksize.getD 512   -- `if blocksize is None: blocksize = 512`
+  ⟨adjustBlocksize b w, adjustBlocksize b h, if isFloat then 3 else 2, b % 16 != 0⟩
+
+/-! ### overwrite guard (`check_write_path`, 32-54, and its call sites) -/
+
+inductive Act where
+  | unlink | write
+  deriving DecidableEq, Repr
+
+/-- `(filesystem actions performed in order, raised IOError?)` for destination state `exists`
+and flag `overwrite`; `":mem:"` destinations never touch the file system -/
+def writePlan (isMem dstExists overwrite : Bool) : List Act × Bool :=
+  if isMem then ([], false)
+  else if dstExists then
+    if overwrite then ([.unlink, .write], false) else ([], true)
+  else ([.write], false)
+
+/-! ### `_norm_compression_opts` (72-83) -/
+
+inductive CompArg where
+  | flag (b : Bool)
+  | name (s : String)
+  | opts (kv : List (String × String))
+  deriving DecidableEq, Repr
+
+/-- resulting option dictionary; `None` is the string `"None"` -/
+def normCompressionOpts (c : CompArg) (defaultCompress : String := "deflate") (defaultZlevel : Nat := 2) :
+    List (String × String) :=
+  match c with
+  | .flag true => [("compress", defaultCompress), ("zlevel", toString defaultZlevel)]
+  | .flag false => [("compress", "None")]
+  | .name s => [("compress", s)]
+  | .opts kv => kv
+
+/-! ### reference (GDAL, not odc-geo): size of the overview for decimation `l` -/
+
+def ovrSize (w h l : Nat) : Nat × Nat := ((w + l - 1) / l, (h + l - 1) / l)
 
 end OdcGeo.C15
